@@ -344,6 +344,11 @@ pub fn nf_ids(lo: u64, hi: u64) -> Vec<NonFungibleLocalId> {
 }
 
 impl World {
+    /// `new` under catch_unwind: a ledger whose bootstrap or account set-up fails is reported, not a crash
+    pub fn try_new() -> Result<World, String> {
+        catch(|| World::new())
+    }
+
     pub fn new() -> World {
         let mut ledger = LedgerSimulatorBuilder::new().without_kernel_trace().build();
         let mut accts = Vec::new();
